@@ -229,6 +229,25 @@ func (w *World) SoilFile() (name, content string) {
 	if w.Decoys > 1 {
 		soils = append(soils, decoySoil("9Z2"))
 	}
+	if w.Alt != 0 {
+		// a second profile of the same horizons under another id (selected by soilId= on the line): other groundwater
+		// level (another class of the field-capacity supplement), other drain
+		a := w.Soil
+		a.Horizons = append([]Horizon{}, w.Soil.Horizons...)
+		a.ID = "9A1"
+		n := a.N()
+		if w.Soil.GW > n+2 {
+			a.GW = 2 + int(w.Alt%uint64(max(n-1, 1)))
+		} else {
+			a.GW = 99
+		}
+		if a.DrainDep <= n {
+			a.DrainDep = 21
+		} else if n >= 3 {
+			a.DrainDep, a.DrainFrac = max(n-2, 1), 0.4
+		}
+		soils = append(soils, a)
+	}
 	if w.BadEnt {
 		bt := decoySoil("8T1")
 		bt.Horizons[0].Tex, bt.Horizons[1].Tex = "XQ7", "XQ7"
@@ -731,7 +750,11 @@ func (w *World) Files(oc *OutputCfg, ww *WeatherWorld) FileSet {
 				w2.Auto[i].NDem1 = (w2.Auto[i].NDem1 + 60) % 180
 			}
 		}
-		w2.GWHi, w2.GWLo = max(1, w.GWHi-2), w.GWLo+3
+		if w.GWHi >= 15 {
+			w2.GWHi, w2.GWLo = 3, 9 // a table inside the profile instead of far below it
+		} else {
+			w2.GWHi, w2.GWLo = w.GWHi+18, w.GWLo+25
+		}
 		w2.IrrOn = !w.IrrOn
 		_, c := w.RotationFile()
 		fs[pdir+"crop_"+w.Loc+".alt"] = c
